@@ -92,6 +92,16 @@ impl ReadCursor {
         (*(h as *const Reader)).vf_set_consumers(v)
     }
 
+    pub(crate) fn vf_readers_addr(&self) -> usize {
+        &self.readers as *const AtomicPtr<ReaderGroup> as usize
+    }
+    /// position of the LAST stream of the list that `group` points to (the one add_stream appended)
+    pub(crate) unsafe fn vf_last_pos_of_group(group: usize) -> usize {
+        let g = &*(group as *const ReaderGroup);
+        let k = g.readers.len();
+        (*g.readers[k - 1]).pos_data.vf_peek()
+    }
+
     pub(crate) fn vf_group_ptr(&self) -> usize {
         self.readers.peek() as usize
     }
